@@ -1417,3 +1417,63 @@ Proof.
     unfold vsmap. f_equal. apply filter_ext. intros [k' v']. unfold not_set. cbn [existsb fst]. now rewrite orb_false_r.
   - reflexivity.
 Qed.
+
+(* ---------- refinement without "answers alike": the server reads the raw query itself ---------- *)
+
+Section ExactRefinement.
+  Variable sch host : str.
+  Variable serve : nat -> url -> response.       (* any registry on association lists *)
+  Variable resolve : url -> str -> option url.
+  Variable cb_fail : nat -> bool.
+  Variable c : cfg.
+  Variable Inv : sreq -> Prop.                   (* an invariant of the raw requests of the run *)
+  Hypothesis Hn : (c_n c < 10 ^ 40)%Z.
+
+  (* the typed reading of a raw request; the same registry serving raw requests *)
+  Definition typed_req (rs : sreq) : url := mkUrl (sr_path rs) (typed_query (sr_query rs)).
+  Definition serve_typed (i : nat) (rs : sreq) : response := serve i (typed_req rs).
+
+  (* net/url as modelled and the abstract resolver agree on the links served *)
+  Hypothesis Hlink : forall i rs t,
+    Inv rs -> parse_link (rs_link (serve i (typed_req rs))) = LTarget t ->
+    match resolve_ref (mkS sch host (sr_path rs) (sr_query rs)) t, resolve (typed_req rs) t with
+    | ROk u, Some u' => s_path u <> [] /\ u' = mkUrl (s_path u) (typed_query (s_query u)) /\
+                        Inv (mkSR (s_path u) (request_query c (s_query u) []))
+    | RErr, None => True
+    | _, _ => False
+    end.
+
+  Theorem loop_s_exact :
+    forall fuel i k p raw last,
+      Inv (mkSR p (request_query c raw last)) -> Forall byte_ok last ->
+      exists ts, loop_s sch host serve_typed cb_fail c fuel i k p raw last = Some ts /\
+                 let t := loop serve resolve cb_fail c fuel i k (mkUrl p (typed_query raw)) last in
+                 st_pages ts = t_pages t /\ st_out ts = t_out t /\ map typed_req (st_reqs ts) = t_reqs t.
+  Proof.
+    induction fuel as [|fuel IH]; intros i k p raw last Hi Hl.
+    { eexists. split; [reflexivity|]. simpl. auto. }
+    cbn [loop_s loop]. cbv zeta.
+    set (rs := mkSR p (request_query c raw last)) in *.
+    set (rq := mk_request c (mkUrl p (typed_query raw)) last).
+    assert (ER : typed_req rs = rq).
+    { unfold typed_req, rs, rq. cbn [sr_path sr_query]. rewrite (request_query_exact c p raw last Hl Hn). reflexivity. }
+    change (serve_typed i rs) with (serve i (typed_req rs)). rewrite ER.
+    destruct (handle c (serve i rq)) as [e|page] eqn:H.
+    { eexists. split; [reflexivity|]. simpl. now rewrite ER. }
+    destruct (delivered c page && cb_fail k).
+    { eexists. split; [reflexivity|]. simpl. now rewrite ER. }
+    destruct (parse_link (rs_link (serve i rq))) as [| | |tx] eqn:PL;
+      try (eexists; split; [reflexivity|]; cbn [st_pages st_out st_reqs t_pages t_out t_reqs map]; rewrite ER; auto).
+    rewrite <- ER in PL. pose proof (Hlink i rs tx Hi PL) as HL. rewrite ER in HL.
+    destruct (resolve_ref (mkS sch host (sr_path rs) (sr_query rs)) tx) as [u| |] eqn:RR;
+      destruct (resolve rq tx) as [u'|] eqn:RA; try contradiction.
+    - destruct HL as (Hne & Eu & Hi'). subst u'.
+      destruct (IH (S i) (if delivered c page then S k else k) (s_path u) (s_query u) [] Hi' ltac:(constructor))
+        as (ts & E & A & B0 & D).
+      destruct (s_path u) eqn:SP; [contradiction|]. rewrite <- SP in *.
+      rewrite E. eexists. split; [reflexivity|].
+      unfold prepend. cbn [st_pages st_out st_reqs t_pages t_out t_reqs map].
+      rewrite A, B0, D, ER. auto.
+    - eexists. split; [reflexivity|]. simpl. now rewrite ER.
+  Qed.
+End ExactRefinement.
